@@ -19,6 +19,7 @@ Pure(e) ==
     [] e.op = "concat" -> R(PConcat(e.l, e.r))
     [] e.op = "split"  -> R(PSplit(e.l, e.k2, e.be))
     [] e.op = "pack"   -> R(PPack(e.l))
+    [] e.op = "pack_be_frame" -> R(<<>>)          \* pack(a, ">L"): only "does not raise, leaves its operand alone" is judged (the harness records no value)
     [] e.op = "dim"    -> R(Len(e.l))
     [] e.op = "get_int"  -> IF PIdx(e.i, Len(e.l)) = -1 THEN X ELSE R(<<e.l[PIdx(e.i, Len(e.l)) + 1]>>)
     [] e.op = "get_slice" -> R(PGetList(e.l, SliceRange(e.start, e.stop, e.step, Len(e.l))))
@@ -35,7 +36,7 @@ Judge(o, e) ==
        ELSE [obj |-> m.val,
              bad |-> (IF e.raised # "" THEN <<C("must-not-raise", m.val)>> ELSE IF e.obj # m.val THEN <<C("object", m.val)>> ELSE <<>>)
                      \o (IF ~e.others_unchanged THEN <<C("operands-and-copies-unchanged", TRUE)>> ELSE <<>>)]
-  ELSE LET p == Pure(e) IN
+  ELSE LET p == Pure(IF "live" \in DOMAIN e THEN (IF e.live = "l" THEN [e EXCEPT !.l = o] ELSE [e EXCEPT !.r = o]) ELSE e) IN     \* live: one operand is the object under mutation, as SPECIFIED so far
        [obj |-> o,
         bad |-> (IF p.raise THEN (IF e.raised = "" THEN <<C("must-raise", "an exception")>> ELSE <<>>)
                  ELSE IF e.raised # "" THEN <<C("must-not-raise", p.val)>>
